@@ -713,6 +713,14 @@ func gen(kind string) func(t *rapid.T) Case {
 			maxN, hi = 90, 200 // dozens of elements
 		}
 		c.Adds = rapid.SliceOfN(rapid.IntRange(0, hi), 0, maxN).Draw(t, "adds")
+		if rapid.IntRange(0, 399).Draw(t, "ladder") == 137 {
+			// a receiver past the sizes at which an implementation may switch strategy
+			n := []int{1100, 2100, 4200}[rapid.IntRange(0, 2).Draw(t, "ladder-size")]
+			a, b := rapid.IntRange(0, 50).Draw(t, "ladder-a"), rapid.IntRange(1, 3).Draw(t, "ladder-b")
+			for i := 0; i < n; i++ {
+				c.Adds = append(c.Adds, a+i*b)
+			}
+		}
 		switch kind {
 		case "treemap", "linkedhashmap", "treebidimap":
 			c.Vals = rapid.SliceOfN(rapid.IntRange(0, hi), 0, maxN).Draw(t, "vals")
